@@ -242,10 +242,13 @@ pub fn check_decode_bytes(ctx: &Ctx, which: &str, bytes: &[u8], trusted: &[[u8; 
             "nodeinfo" => NodeInfo::decode(Cursor::new(bytes)).is_ok(),
             "rotation" => RotationMessage::read_from(Cursor::new(bytes)).is_ok(),
             _ => {
-                // handshake parser sees the message followed by the stale receive buffer (64 KiB)
+                // handshake parser sees the message followed by the stale receive buffer (64 KiB) ...
                 let mut buf = vec![0xa5u8; bytes.len() + 65536];
                 buf[..bytes.len()].copy_from_slice(bytes);
-                InitMsg::verif_read_from(&buf, trusted).is_ok()
+                let a = InitMsg::verif_read_from(&buf, trusted).is_ok();
+                // ... or, for a datagram that fills the receive buffer to its end, nothing behind it
+                let b = InitMsg::verif_read_from(bytes, trusted).is_ok();
+                a || b
             }
         })
     });
